@@ -77,10 +77,53 @@ def s2_tasks(tier):
                 for win in progs.WINDOWS_FAR:
                     for ch in kernel.chunks(list(win), 3):
                         s2.append(dict(ref=s[0], dir=d, gaps=ch, between=far))
+    # data-size family: every data item kind (non-ASCII / escaped strings, every sequence and pack width, include_bytes) between a transfer and its label
+    nd = len(progs.DATA_ALL)
+    for i in range(nd):
+        s2.append(dict(kind='datasize', i=i))
+    # far-context family: a far call / tail / long li first, then every closed sequence of <= 3 items, then a 2 MiB align and the far label
+    for pre in FAR_PREFIX:
+        for first in [s[0] for s in far_alphabet()] + [None]:
+            s2.append(dict(kind='farctx', pre=pre, first=first))
     return s2
 
 
+FAR_PREFIX = {
+    'callB': lambda: [L.call('B')],
+    'tailB': lambda: [L.call('B', tail=True)],
+    'liB': lambda: [L.li(5, ('label', 'B'))],
+    'addi+callB': lambda: [progs.I('addi', rd=8, rs1=8, imm=1), L.call('B')],
+    'callB+tailB': lambda: [L.call('B'), L.call('B', tail=True)],
+}
+
+
+def far_alphabet():
+    syms = progs.pick(progs.XFER, 'jal0', 'beq8', 'call', 'tail') + progs.pick(progs.VAR, 'li1') + progs.pick(progs.CODE_C, 'addi8') + progs.pick(progs.ALIGN, 'al4') + [progs.DEF]
+    return progs.instantiate(syms, ['A'])
+
+
 def s2_programs(task):
+    if task.get('kind') == 'datasize':
+        d = progs.DATA_ALL[task['i']][1](None)
+        jal = lambda l: progs.I('jal', rd=0, imm=('offset', l))
+        tail = progs.I('add', rd=5, rs1=6, rs2=7)
+        for d2 in [None] + [x[1](None) for x in progs.DATA_ALL]:
+            mid = [d] + ([d2] if d2 else [])
+            yield [jal('A')] + mid + [L.align(2), L.label('A'), tail]
+            yield [L.label('A'), tail] + mid + [L.align(2), jal('A')]
+            yield [L.call('A')] + mid + [L.label('B'), L.align(4), L.label('A'), tail, L.data('dw B', ('<I', ('label', 'B')))]
+        return
+    if task.get('kind') == 'farctx':
+        alpha = far_alphabet()
+        pre = FAR_PREFIX[task['pre']]()
+        suffix = [L.align(0x200000), L.label('B'), progs.I('add', rd=5, rs1=6, rs2=7)]
+        if task['first'] is None:
+            yield pre + suffix
+            return
+        progs.closed_programs.stats = {'histories': 0, 'open': 0}
+        for names, items in progs.closed_programs(alpha, 3, ['A'], (task['first'],)):
+            yield pre + items + suffix
+        return
     sym = {s[0]: s for s in progs.XFER}[task['ref']]
     for gapn in task['gaps']:
         for bname in task['between']:
@@ -90,9 +133,12 @@ def s2_programs(task):
 
 def describe(tier):
     return ('S1: all closed programs of <= %d lines over the alphabet; S2: %d transfer kinds x 2 directions x between-sequences x 2 prefixes x every gap in '
-            '236..267, 2030..2063, 4080..4111 and (jumps/call/tail) 2^20-24..2^20+24, 2^20+0x7e8..2^20+0x818, 2 MiB, 3 MiB' % (depth(tier), len(progs.XFER)))
+            '236..267, 2030..2063, 4080..4111 and (jumps/call/tail) 2^20-24..2^20+24, 2^20+0x7e8..2^20+0x818, 2 MiB, 3 MiB; data-size family: %d data item kinds alone and in all pairs '
+            'between a transfer and its label (3 shapes); far-context family: 5 far prefixes (call / tail / li to a label 2 MiB away) x all closed sequences of <= 3 items over 9 symbols'
+            % (depth(tier), len(progs.XFER), len(progs.DATA_ALL)))
 
 
+NEEDS_FILES = True      # include_bytes items in the data-size family
 DRIVERS = {'prog_case': layoutrun.prog_case(__name__)}
 
 
